@@ -157,3 +157,31 @@ def _resolution():
 
 REG.finite_check('C17.platform-resolution', _resolution, ['C17'],
                  'configs/resource_*.json x factories')
+
+
+# ------------------------------------------------------------------------------
+from pyvc.spec import T
+# C17 (b): the sizing arithmetic of PMGRLaunchingComponent._prepare_pilot - the
+# number of nodes requested from the batch system covers the cores and GPUs the
+# pilot description asks for, and not a node more
+REG.spec('pmgr/launching/base.py:PMGRLaunchingComponent._prepare_pilot#nodes',
+    fragment = 'if requested_nodes:',
+    fragment_marker = "raise RuntimeError('use \"cores\" in PilotDescription')",
+    params   = dict(requested_nodes=T.Real, requested_cores=T.Int, requested_gpus=T.Int,
+                    avail_cores_per_node=T.Opt(T.Int), avail_gpus_per_node=T.Opt(T.Int)),
+    requires = ['requested_nodes >= 0', 'requested_cores >= 0', 'requested_gpus >= 0',
+                'implies(avail_cores_per_node is not None, val(avail_cores_per_node) >= 0)',
+                'implies(avail_gpus_per_node is not None, val(avail_gpus_per_node) >= 0)'],
+    modifies = ['requested_nodes'],
+    raises   = {'RuntimeError': 'old(requested_nodes) != 0 and not bool(avail_cores_per_node)'},
+    ensures  = [
+      ('an-explicit-node-count-is-kept', 'implies(old(requested_nodes) != 0, requested_nodes == old(requested_nodes))'),
+      ('derived-node-count-covers-the-requested-cores',
+       'implies(old(requested_nodes) == 0 and bool(avail_cores_per_node), requested_nodes * val(avail_cores_per_node) >= requested_cores)'),
+      ('derived-node-count-covers-the-requested-gpus',
+       'implies(old(requested_nodes) == 0 and bool(avail_gpus_per_node), requested_nodes * val(avail_gpus_per_node) >= requested_gpus)'),
+      ('derived-node-count-is-the-smallest-that-does',
+       'implies(old(requested_nodes) == 0 and bool(avail_cores_per_node) and bool(avail_gpus_per_node) and requested_nodes >= 1, '
+       '(requested_nodes - 1) * val(avail_cores_per_node) < requested_cores or (requested_nodes - 1) * val(avail_gpus_per_node) < requested_gpus)'),
+    ],
+    serves   = ['C17'])
